@@ -822,7 +822,8 @@ public:
   ///In normal use there is no reason to call this function, as it prevents the
   ///quick reuse of memory which has previously been allocated
   static void clear_mem_cache(){
-    for(unsigned int dim=1; dim<=SQUIDS_MAX_HILBERT_DIM; dim++){
+    //slot 0 is used too: a vector assigned from an empty one owns a (zero-size) block
+    for(unsigned int dim=0; dim<=SQUIDS_MAX_HILBERT_DIM; dim++){
       mem_cache_entry cache_result;
       while(true){
         cache_result=storage_cache[dim].get();
